@@ -352,7 +352,10 @@ spif_ustr_dup(spif_ustr_t self)
     ASSERT_RVAL(!SPIF_USTR_ISNULL(self), (spif_ustr_t) NULL);
     tmp = SPIF_ALLOC(ustr);
     memcpy(tmp, self, SPIF_SIZEOF_TYPE(ustr));
-    tmp->s = (spif_charptr_t) STRDUP((const char *) SPIF_USTR_STR(self));
+    if (self->s != (spif_charptr_t) NULL) {
+        tmp->s = (spif_charptr_t) MALLOC(self->size);
+        memcpy(tmp->s, self->s, self->len + 1);
+    }
     tmp->len = self->len;
     tmp->size = self->size;
     return tmp;
